@@ -170,9 +170,6 @@ META["C15"] = dict(
     assumptions=["distinct x; LOESS windows hold at least degree+3 points", "coefficient tolerance 256(n+p+2)*kappa*eps*scale"],
 )
 
-INTERVAL_PROOFS = ["MV.Proofs.Interval"]   # soundness of every MV.I enclosure over the reals
-for _p in ["C03", "C04", "C05", "C08", "C09", "C11", "C12", "C14", "C16", "C17"]:
-    META[_p]["extra_modules"] = INTERVAL_PROOFS
 
 META["C12"] = dict(
     level_text="Theorems (Lean, Epanechnikov and delta kernels, any positive weights and bandwidth): the kernel pdf is non-negative, the kernel cdf is non-decreasing from 0 to 1 and is the antiderivative of the pdf piecewise, so the unbounded estimate is a proper distribution with integral of PDF = difference of CDF; the reflection formulas for one and two boundaries. Correspondence: KDE.PDF/CDF of the real code against the model for three kernels and four boundary configurations (Gaussian through proved-sound interval enclosures of phi and Phi; reflected images summed until negligible), the lazily filled Bandwidth against Scott's rule, BandwidthScott/Silverman against interval formulas, and Bounds evaluated on the model CDF (finite, inside the boundaries, >= 98% of the mass); non-negativity, range and monotonicity checked on the code's outputs.",
@@ -212,3 +209,7 @@ META["C08"] = dict(
     trusted_base=COMMON_TB + ["MV.I enclosures; closed forms MV.Special.{betaIncInt,betaIncHalf,gammaIncInt,gammaIncHalf}"],
     assumptions=["0<=x<=1, 0.05<=a,b<=300 (BetaInc); 0.05<=a<=300, x>=0 (GammaInc)"],
 )
+
+INTERVAL_PROOFS = ["MV.Proofs.Interval"]   # soundness of every MV.I enclosure over the reals
+for _p in ["C03", "C04", "C05", "C08", "C09", "C11", "C12", "C14", "C16", "C17"]:
+    META[_p]["extra_modules"] = INTERVAL_PROOFS
